@@ -177,6 +177,12 @@ def oracle (obs : List (List String × String)) : Verdict :=
             [if nloc > 12 then "locs>12" else if nloc ≥ 2 then "locs2..12" else "locs<2"] ++
             (if s.files.any (fun f => !f.deletes.isEmpty) then ["tombstones"] else []) ++
             (if extreme then ["seek-extreme"] else []) ++
+            (match seeks, seeksSorted s.files k.t k.asc with
+             | some sk, some ins =>
+               if sk.map (fun b => (b.file, b.blk)) == ins.map (fun b => (b.file, b.blk)) then ["order=insertion-sort"]
+               else if sk.length ≤ 12 then ["order≠insertion-sort,n≤12"] else ["order≠insertion-sort,n>12"]
+             | _, _ => []) ++
+            (if filesOK s.files && seekOK k.t k.asc && okOrder then ["theorem-hypotheses-met"] else ["theorem-hypotheses-NOT-met"]) ++
             (if ok then [] else ["statement-fails"])
           let sig :=
             if extreme then "seek-at-int64-extreme"
